@@ -503,7 +503,7 @@ func c21RunLossy(lc *c21LossyCase, viol vlpViolFunc) *c21LossyResult {
 		s.SetReadContext(ctx)
 		s.SetWriteContext(ctx)
 		n := []int{0, 0, 1, 20, 300, 3000}[rng.IntN(6)]
-		mode := rng.IntN(6)
+		mode := rng.IntN(5)
 		key := fmt.Sprintf("initiator of stream %d mode %d bytes %d", s.ID(), mode, n)
 		stage.Store(key, "writing")
 		defer stage.Delete(key)
@@ -525,11 +525,6 @@ func c21RunLossy(lc *c21LossyCase, viol vlpViolFunc) *c21LossyResult {
 		case 3:
 			s.Flush()
 			sleep(time.Duration(rng.IntN(400)) * time.Millisecond)
-		case 5:
-			s.Flush()
-			if bidi {
-				io.Copy(io.Discard, s)
-			}
 		}
 		stage.Store(key, "in Close")
 		s.Close()
@@ -679,6 +674,21 @@ func c21RunLossy(lc *c21LossyCase, viol vlpViolFunc) *c21LossyResult {
 		}
 	}
 
+	// The run ends when every application goroutine has finished, or when nothing has moved
+	// for 120 virtual seconds on the clean network (NewStream callers can stay blocked for
+	// ever, see the note on leaked stream credit in the evidence); never on wall-clock time.
+	progress := func() [4]int64 {
+		var v [4]int64
+		for s := 0; s < 2; s++ {
+			for t := 0; t < 2; t++ {
+				v[0] += opened[s][t].Load()
+				v[1] += accepted[s][t].Load()
+				v[2] += appClosed[s][t].Load()
+			}
+		}
+		v[3] = pending.Load()
+		return v
+	}
 	waitIdle := func(d time.Duration) bool {
 		deadline := time.Now().Add(d)
 		for time.Now().Before(deadline) {
@@ -691,13 +701,18 @@ func c21RunLossy(lc *c21LossyCase, viol vlpViolFunc) *c21LossyResult {
 	}
 	waitIdle(time.Duration(lc.FaultPhase) * time.Millisecond)
 	p.Net.clean.Store(true)
-	for round := 0; ; round++ {
-		if !waitIdle(300*time.Second) || round > 100 {
-			res.Stuck = true
-			break
+	last, lastChange := progress(), time.Now()
+	for {
+		if waitIdle(3 * time.Second) {
+			time.Sleep(3 * time.Second) // streams whose initiator is already done may still be on their way
+			if pending.Load() == 0 {
+				break
+			}
 		}
-		time.Sleep(3 * time.Second) // streams whose initiator is already done may still be on their way
-		if pending.Load() == 0 {
+		if cur := progress(); cur != last {
+			last, lastChange = cur, time.Now()
+		} else if time.Since(lastChange) >= 120*time.Second {
+			res.Stuck = true
 			break
 		}
 	}
@@ -1145,7 +1160,7 @@ func TestVerif_C21(t *testing.T) {
 				tr       *c21Tracked
 				dataLen  int64
 				peerDone bool
-				real     bool // named by a frame other than STREAM_DATA_BLOCKED
+				real     bool // named by some frame of the peer (STREAM_DATA_BLOCKED included: RFC 9000 §3.2)
 			}
 			streams := map[[2]int64]*rstream{}
 			var order []*rstream
@@ -1223,9 +1238,7 @@ func TestVerif_C21(t *testing.T) {
 				case "stop_sending":
 					f = debugFrameStopSending{id: id, code: 5}
 				}
-				if kind != "stream_data_blocked" {
-					st.real = true
-				}
+				st.real = true
 				if streams[k] == nil {
 					streams[k] = st
 					order = append(order, st)
